@@ -337,9 +337,65 @@ def h_rows_concrete(mods, mf0, mf1, isflags):
         for j, s in enumerate(srcs):
             want = isflags | (mf0, mf1)[j]
             c.oblige(tag + ':component %d flags == island flags | model flags, documented bits only' % j, z3.BoolVal(isinstance(s.flags, int) and s.flags == want and (s.flags & ~ALLBITS) == 0))
+            c.oblige(tag + ':component %d has a uuid of its own' % j, z3.BoolVal(bool(getattr(s, 'uuid', None)) and all(s.uuid != o.uuid for o in srcs if o is not s)))
             r2c.ident(c, tag + ':component %d int_flux == peak*a*b/(psf_a*psf_b)' % j, core.lift(s.int_flux), core.lift(s.peak_flux) * (s.a.e * s.b.e) / ((fl.k.e * pa_.e * 3600) * (fl.k.e * pb_.e * 3600)))
         return dict()
     return h
+
+
+def rows_oracle():
+    """the real result_to_components on a real two-component lmfit model: numbering, distinct uuids, integer flag words,
+    sexagesimal strings that parse back to the decimal position"""
+    import lmfit
+    from astropy.io import fits
+    from checks import C17
+    sfm = loader.real('source_finder')
+    wh = loader.real('wcs_helpers')
+    models = loader.real('models')
+    at = loader.real('angle_tools')
+    hdr = fits.Header()
+    hdr['NAXIS'] = 2
+    hdr['NAXIS1'] = hdr['NAXIS2'] = 40
+    hdr['CTYPE1'], hdr['CTYPE2'] = 'RA---SIN', 'DEC--SIN'
+    hdr['CRVAL1'], hdr['CRVAL2'] = 10., -20.
+    hdr['CRPIX1'] = hdr['CRPIX2'] = 20.
+    hdr['CDELT1'], hdr['CDELT2'] = -0.01, 0.01
+    hdr['BMAJ'] = hdr['BMIN'] = 0.03
+    hdr['BPA'] = 0.
+    helper = wh.WCSHelper.from_header(hdr)
+    finder = sfm.SourceFinder(log=logging.getLogger('c03-oracle'))
+    gd = finder.global_data
+    gd.wcshelper = gd.psfhelper = helper
+    gd.rmsimg = real_np.ones((40, 40))
+    gd.bkgimg = real_np.zeros((40, 40))
+    gd.img = real_np.zeros((40, 40))
+    gd.blank = False
+    m = lmfit.Parameters()
+    m.add('components', value=2, vary=False)
+    for j, (xo, yo) in enumerate(((2.2, 3.1), (6.4, 5.2))):
+        for k, v in dict(amp=5.0 - j, xo=xo, yo=yo, sx=1.6, sy=1.2, theta=20.0 + 30 * j).items():
+            m.add('c%d_%s' % (j, k), value=v, vary=True)
+            m['c%d_%s' % (j, k)].stderr = 0.05
+        m.add('c%d_flags' % j, value=float(j), vary=False)
+
+    class Res:
+        residual = real_np.zeros(10)
+    isl = models.IslandFittingData(5, i=real_np.ones((10, 10)), scalars=(5, 4, None), offsets=(10, 20, 12, 22), doislandflux=False)
+    try:
+        srcs = finder.result_to_components(Res(), m, isl, 0)
+    except Exception as e:
+        return True, 'raises-%s' % type(e).__name__, repr(e)[:300]
+    comps = [s for s in srcs if isinstance(s, models.ComponentSource)]
+    if [(s.island, s.source) for s in comps] != [(5, 0), (5, 1)]:
+        return True, 'numbering', 'components labelled %s' % [(s.island, s.source) for s in comps]
+    if len(set(s.uuid for s in comps)) != len(comps):
+        return True, 'uuid-not-unique', 'two components of one island share the uuid %s' % comps[0].uuid
+    for s in comps:
+        if not isinstance(s.flags, (int, real_np.integer)):
+            return True, 'flags-type', 'flags %r' % (s.flags,)
+        if abs(at.dec2dec(s.dec_str) - s.dec) > 0.006 / 3600 or min(abs(at.ra2dec(s.ra_str) - s.ra), abs(abs(at.ra2dec(s.ra_str) - s.ra) - 360)) > 15 * 0.006 / 3600:
+            return True, 'sexagesimal', '%s %s for (%r, %r)' % (s.ra_str, s.dec_str, s.ra, s.dec)
+    return False, None, None
 
 
 def k_flags(rep):
@@ -518,8 +574,15 @@ def run(rep):
     for mf0, mf1, isf in ((0, 0, 0), (4, 0, 1), (16, 4, 2), (0, 127, 64)):
         st, res = explore(h_rows_concrete(mods, mf0, mf1, isf), wall_s=600)
         rep.stats(st)
-        collect(rep, res, 'K-rows')
+        collect(rep, res, 'K-rows', rows_oracle, dict(kind='rows'))
+    bad, cls, detail = rows_oracle()
+    rep.validated_runs(1)
+    if bad:
+        rep.finding('C03/K-rows/%s' % cls, dict(kind='rows'), detail)
     rep.end_kernel()
+    # the strings of every row: the real dec2dms / dec2hms (the kernel of C17, run here on the same code)
+    from checks import C17
+    C17.run_sexa(rep, C17.sym_at(), pid='C03')
     k_flags(rep)
     rep.kernel('K-replay-oracle', functions=[F + ':SourceFinder.find_sources_in_image', F + ':SourceFinder.priorized_fit_islands'], bounds='a noise-free 25-source field: blind run twice (identical), priorized stage 1 over 25 islands (> 20: two groups), every row invariant of the statement',
                assumes=['concrete executions at the level of the property statement'])
@@ -534,7 +597,7 @@ def run(rep):
         rep.finding('C03/K-errors/%s' % cls, dict(kind='errors'), detail, kernel='K-errors')
     rep.end_kernel()
     rep.not_decided += ['re-running on identical input yields an identical catalogue (checked on one field only)', 'island rows agree with component rows and detected pixels (island mode)',
-                        'completion on every valid image (flagging rather than aborting)', 'sexagesimal strings agree with the decimal coordinates (C17 decides the primitives; here on the replay field only)']
+                        'completion on every valid image (flagging rather than aborting)', 'sexagesimal strings: dec2dms / dec2hms decided here by the C17 kernel; that every writer uses them is not decided']
 
 
 def replay(w):
@@ -543,6 +606,11 @@ def replay(w):
         bad, cls, detail = errors_oracle()
     elif wit.get('kind') == 'normalise':
         bad, cls, detail = normalise_oracle(wit.get('values') or {})
+    elif wit.get('kind') == 'rows':
+        bad, cls, detail = rows_oracle()
+    elif wit.get('kind') in ('dms', 'hms'):
+        from checks import C17
+        bad, cls, detail = C17.oracle_sexa(wit['kind'], float(wit['x']))
     else:
         bad, cls, detail = priorized_oracle(int(wit.get('nsrc', 25)), blank=bool(wit.get('blank')))
     return bad, '%s: %s' % (cls, detail)
